@@ -347,6 +347,39 @@ PLANS["C10"] = {
 }
 
 
+from . import conc as _conc  # noqa: E402
+
+
+def _conc_tags(beh):
+    return frozenset(["".join("%s%s" % (a["a"][0], a["p"]) for a in beh)])
+
+
+def conc_consts(main=("p1", "p2"), linked=(), steps=8):
+    return {"ProcMain": list(main), "ProcLinked": list(linked), "Mode": "gen", "Dev": ["no_file_lock"],
+            "MaxSteps": steps}
+
+
+PLANS["C11"] = {
+    "clauses": ["C11_NothingLost"],
+    "module": "Concurrency.tla", "const_keys": ["ProcMain", "ProcLinked", "Mode", "Dev", "MaxSteps"],
+    "executor": _conc.execute_conc, "tagger": _conc_tags, "end_event": {"ev": "reset", "run": "end"},
+    "quick": [
+        dict(name="two", consts=conc_consts(("p1", "p2"), (), 4), invariants=["G_C11_NothingLost"], budget=40,
+             variants=[("-", "-")], per_tag=4),
+        dict(name="worktree", consts=conc_consts(("p1",), ("p2",), 4), invariants=["G_C11_NothingLost"], budget=40,
+             variants=[("-", "-")], per_tag=4),
+        dict(name="three", consts=conc_consts(("p1", "p2"), ("p3",), 6), invariants=["G_C11_NothingLost"], budget=90,
+             variants=[("-", "-")], per_tag=1),
+    ],
+    "thorough": [
+        dict(name="three", consts=conc_consts(("p1", "p2", "p3"), (), 6), invariants=["G_C11_NothingLost"],
+             budget=200, variants=[("-", "-")], per_tag=3),
+        dict(name="four", consts=conc_consts(("p1", "p2"), ("p3", "p4"), 8), invariants=["G_C11_NothingLost"],
+             budget=400, variants=[("-", "-")], per_tag=1),
+    ],
+}
+
+
 def _core(pid, tier, seed):
     return core_check.run_core(pid, tier, seed, PLANS[pid])
 
